@@ -155,6 +155,16 @@ pub fn check_slots<P>(s: &VerifSnapshot<P>) -> Result<(), String> {
     Ok(())
 }
 
+/// C11's storage bound: "a constant multiple of the peak number of simultaneously stored entries plus
+/// the initial capacity". The shipped pool stays below 3*(peak+1) + max(hint, 8); the monitor allows
+/// any linear policy up to 8x the peak and 2x the hint (doubling, rounding the hint up to a power of
+/// two, fixed chunks) so that a different but still linear growth policy is never flagged. A leak
+/// is caught by the slot partition long before any bound; a superlinear policy passes any constant
+/// in the large-tree jobs.
+pub fn slots_bound(peak: usize, hint: usize) -> usize {
+    8 * (peak + 1) + 2 * hint.max(8) + 64
+}
+
 /// Node markers in a canonical form (entry bytes appended by `enc` must stay below 0xF0).
 pub const CANON_RED: u8 = 0xF1;
 pub const CANON_BLACK: u8 = 0xF2;
